@@ -187,4 +187,6 @@ def templates(tier, seed):
 
     ts += [Template(tid, fn, args) for tid, fn, args in tmpl_pl.equiv_cases(tier)]
     ts += [Template(tid, tmpl.pick(fn, ["verdict"]), args) for tid, fn, args in tmpl_pl.verdict_cases(tier)]
+    # a stand-alone Column on a frame that holds other columns: the verdict concerns the named column, the others come back as they were
+    ts += [Template(tid, tmpl.pick(fn, ["verdict", "column"]), args) for tid, fn, args in tmpl_pl.standard_cases(tier) if tid.startswith("PL/COL/")]
     return ts
